@@ -169,13 +169,14 @@ theorem partition_spec (p : α → Bool) (a : Array α) :
     (∀ i, i < (partition p a).2 → p (partition p a).1[i]! = true) ∧
     (∀ i, (partition p a).2 ≤ i → i < a.size → p (partition p a).1[i]! = false) ∧
     (partition p a).2 = a.toList.countP p := by
+  unfold partition
   have h := partitionLoop_spec p a (a.size + 1) a 0 a.size (Nat.zero_le _) (Nat.le_refl _)
     (by omega) (Array.Perm.refl _) (fun i hi => by omega) (fun i h1 h2 => by omega)
   obtain ⟨h1, h2, h3, h4⟩ := h
   refine ⟨h1, h2, h3, h4, ?_⟩
-  have hperm : (partition p a).1.toList.Perm a.toList := Array.perm_iff_toList_perm.mp h1
+  have hperm := Array.perm_iff_toList_perm.mp h1
   rw [← hperm.countP_eq]
-  have hsz : (partition p a).1.size = a.size := h1.size_eq
+  have hsz := h1.size_eq
   symm
   apply countP_of_split p _ _ (by simpa [hsz] using h2)
   · intro i hi hik
@@ -239,6 +240,7 @@ example : minElement (fun (x y : Nat) => decide (x < y)) #[4, 2, 8, 2] = 1 := by
 
 /-! ## scalar helpers -/
 
+omit [Inhabited α] in
 /-- `clamp(v, lo, hi)` lies in `[lo, hi]` and equals `v` when `v` does (precondition `¬ hi < lo`) -/
 theorem clamp_spec (lt : α → α → Bool) (h : StrictWeakOrder lt) (v lo hi : α)
     (hpre : lt hi lo = false) :
@@ -246,15 +248,15 @@ theorem clamp_spec (lt : α → α → Bool) (h : StrictWeakOrder lt) (v lo hi :
     (lt v lo = false → lt hi v = false → clamp lt v lo hi = v) := by
   unfold clamp
   by_cases h1 : lt v lo = true
-  · simp only [h1, ↓reduceIte]
-    exact ⟨h.irrefl _, hpre, fun h' => by simp [h1] at h'⟩
+  · rw [if_pos h1]
+    exact ⟨h.irrefl _, hpre, fun h' => by rw [h1] at h'; cases h'⟩
   · have h1' : lt v lo = false := by simpa using h1
-    simp only [h1', Bool.false_eq_true, ↓reduceIte]
+    rw [if_neg h1]
     by_cases h2 : lt hi v = true
-    · simp only [h2, ↓reduceIte]
-      exact ⟨hpre, h.irrefl _, fun _ h' => by simp [h2] at h'⟩
+    · rw [if_pos h2]
+      exact ⟨hpre, h.irrefl _, fun _ h' => by rw [h2] at h'; cases h'⟩
     · have h2' : lt hi v = false := by simpa using h2
-      simp only [h2', Bool.false_eq_true, ↓reduceIte]
+      rw [if_neg h2]
       exact ⟨h1', h2', fun _ _ => rfl⟩
 
 /-- ★ `ceil_div(t, b)` is the least `q` with `t ≤ q·b`, i.e. `⌈t / b⌉`, for `b > 0`. -/
@@ -267,8 +269,9 @@ theorem ceilDiv_spec (t b : Nat) (hb : 0 < b) :
     have h2 := Nat.mod_lt (t + b - 1) hb
     rw [Nat.mul_comm]; omega
   · have h0 := ceilDiv_mul_ge t b hb
-    apply Nat.div_le_of_le_mul
-    rw [Nat.mul_comm] at h0; omega
+    apply Nat.le_of_lt_succ
+    apply Nat.div_lt_of_lt_mul
+    rw [Nat.mul_succ, Nat.mul_comm]; omega
 
 /-- `ceil_div` never exceeds its first argument for `b ≥ 1`, so no unsigned wrap can occur -/
 theorem ceilDiv_le (t b : Nat) (hb : 0 < b) : ceilDiv t b ≤ t :=
@@ -522,6 +525,13 @@ example : nonuniformFind (fun (x y : Int) => decide (x < y)) (fun x y => x != y)
     ∧ nonuniformFind (fun (x y : Int) => decide (x < y)) (fun x y => x != y) #[0, 1, 3, 3, 7] 2 = 1 := by
   decide +kernel
 example : ∀ x y : Int, (x != y) = (decide (x < y) || decide (y < x)) := by
-  intro x y; by_cases h : x = y <;> simp [h]; omega
+  intro x y
+  rcases Int.lt_trichotomy x y with h | h | h
+  · have : x ≠ y := by omega
+    simp [this, h]
+  · subst h; simp
+  · have : x ≠ y := by omega
+    have h' : ¬ x < y := by omega
+    simp [this, h, h']
 
 end CelerVerif.Algo
